@@ -119,6 +119,26 @@ def real_generate(sel: list[str], prefix: str, target: Path, workdir: Path | Non
     return target.read_text("utf8")
 
 
+def kinds_in(path: Path) -> set[str]:
+    """Node classes that occur in a file, recorded with one probe check per dispatchable class through the real visitor."""
+    from collections import defaultdict
+
+    import refurb.main as rmain
+    from refurb.settings import Settings
+    from refurb.visitor import METHOD_NODE_MAPPINGS
+    seen: set[str] = set()
+    checks = defaultdict(list)
+    for cls in set(METHOD_NODE_MAPPINGS.values()):
+        checks[cls].append(lambda node, errors: seen.add(type(node).__name__))
+    orig = rmain.load_checks
+    rmain.load_checks = lambda settings: checks
+    try:
+        rmain.run_refurb(Settings(files=[str(path)], quiet=True))
+    finally:
+        rmain.load_checks = orig
+    return seen
+
+
 def run(ctx: Ctx) -> None:
     ctx.trusted_base += [
         "Coq 8.16.1 kernel",
@@ -256,15 +276,15 @@ def run(ctx: Ctx) -> None:
         # ---- a sample really linted with --load on a file that contains every node kind
         (td / "plugs" / "__init__.py").write_text("")
         probe = VERIF / "corpus" / "C04" / "kitchen.py"
+        present = kinds_in(probe)            # the node classes the probe file really contains (a selection of other classes has nothing to fire on)
+        ctx.extra["probe_file_node_classes"] = len(present)
         for modname, sel, prefix, nid in rng.sample(loadable, min(len(loadable), ctx.budget(6, 40))):
             rc, out, err = L.cli([str(probe), "--quiet", "--disable-all", "--enable", f"{prefix}{nid}", "--load", modname], cwd=str(td),
                                  env_extra={"PYTHONPATH": f"{td}:{L.ENV['PYTHONPATH']}"})
             n = sum(1 for l in out.splitlines() if f"[{prefix}{nid}]" in l)
             ctx.case(("lint", tuple(sel)), nontrivial=True)
             ctx.count("linted-with-generated-check")
-            if not L.clean_verdict(rc, out, err) or (n == 0 and not set(sel) <= {"PlaceholderNode", "TempNode", "TypeAlias", "Var", "PromoteExpr", "TypeVarTupleExpr", "ParamSpecExpr",
-                                                                                   "EnumCallExpr", "RevealExpr", "AssertTypeExpr", "TypeAliasExpr", "NamedTupleExpr", "TypedDictExpr", "NewTypeExpr",
-                                                                                   "TypeVarExpr", "CastExpr", "TypeApplication", "OverloadedFuncDef", "SuperExpr", "ImportAll"}):
+            if not L.clean_verdict(rc, out, err) or (n == 0 and set(sel) & present):
                 ctx.report("gen:does-not-fire", f"the generated check for {sel} loaded with --load reports {n} diagnostics on a file with every node kind (exit {rc})",
                            {"selection": sel, "stdout": out[-300:], "stderr": err[-500:]})
     finally:
